@@ -1,7 +1,7 @@
 """Property -> rule set, with the clause split that the manifest and the evidence repeat."""
 from __future__ import annotations
 
-from .rules import tables, config, luts, state, ownership, contracts, stream
+from .rules import tables, config, luts, state, ownership, contracts, stream, dims, mutate
 
 RULES = {
     'H1': tables.rule_H1,
@@ -19,6 +19,8 @@ RULES = {
     'E6': contracts.rule_E6, 'E7': contracts.rule_E7, 'D2': contracts.rule_D2, 'E9': contracts.rule_E9, 'E4': contracts.rule_E4,
     'E10': contracts.rule_E10,
     'C': stream.rule_C, 'POSW': stream.rule_POSW, 'B1': stream.rule_B1, 'POST': stream.rule_POST, 'RB': stream.rule_RB,
+    'I': dims.rule_I, 'B3': dims.rule_B3, 'N2a': dims.rule_N2a,
+    'B2': mutate.rule_B2, 'WB': mutate.rule_WB, 'N1': mutate.rule_N1, 'N2': mutate.rule_N2,
     'H5a': luts.rule_H5a, 'H5b': luts.rule_H5b, 'H5c': luts.rule_H5c,
 }
 
@@ -208,8 +210,50 @@ _p('C16', ['A1', 'A5', 'A8', 'A10', 'E6', 'K', 'C', 'L'],
    explanation="Effect summaries per public operator, provenance of mutated temporaries, sibling guard agreement, "
                "result-class typing.")
 
+_p('C03', ['B2', 'WB', 'N1', 'B1'],
+   decided=["an invalid position, range or value raises and leaves the content as it was: in every public mutator of "
+            "BitArray/BitStream no explicit raise (directly, or in a loop through a raising callee) is reachable after the "
+            "first change of self (operations over an iterable of positions exempt, by the property's wording)",
+            "an operation given a [start, end) range never alters bits outside it, in its bounded-write part: loops of "
+            "ranged in-place writes are bounded by the validated end",
+            "helpers' position asserts are established by their public callers' guards"],
+   declined=["equality of the resulting sequence with the documented operation, return values, length preservation in "
+             "general (run-time)"],
+   explanation="Path walk of every effectful public mutator (effects from the store-effect summaries), bound derivation "
+               "for write loops from the validated window, dominating-guard facts for helper asserts.",
+   floors={'B2': 40})
+
+_p('C14', ['I', 'B3', 'B2', 'N2a', 'A9'],
+   decided=["item i occupies bits [i*w, (i+1)*w) with w in bits for every fixed-length dtype incl. byte-multiplier ones: "
+            "bit counts (len of data, Dtype.bitlength, itemsize), unit counts (Dtype.length) and item counts are never "
+            "mixed in array_.py (three-sorted dimension analysis of every arithmetic, comparison, slice bound, position)",
+            "a failing in-place operator leaves the Array unchanged; extended-slice assignment, extend, insert, append "
+            "validate before they change anything",
+            "zero-width items are impossible (the dtype writer rejects them before installing)",
+            "copies and slices of an Array own their data"],
+   declined=["agreement of every list operation and operator result with the Python list model; promotion rules as "
+             "values (run-time)"],
+   explanation="Dimension (unit) analysis over array_.py, atomicity path rule for in-place helpers, guard check on the "
+               "only writer of Array._dtype.")
+
+_p('C20', ['M', 'D1', 'N1', 'N2', 'N2a', 'N3', 'N4', 'A5', 'B1', 'POSW', 'E7', 'H1'],
+   decided=["never an internal error class: AttributeError (every self.<attr> of every method resolves in every concrete "
+            "class), AssertionError (29 asserts: facts at public call sites or reviewed reason), ZeroDivisionError "
+            "(all divisions), KeyError (struct-code regexes cover the table lookups), NameError (all globals "
+            "resolve), undocumented classes (raise-site census)",
+            "immutable objects unchanged; streams keep a valid pos (typestate of _pos writes, override coverage)",
+            "module options are as the caller left them (writes confined to the setters)"],
+   declined=["RecursionError, MemoryError, len(s) == len(s.bin) as a run-time invariant, errors raised inside bitarray "
+             "with surprising classes"],
+   explanation="Member resolution per class, raise/assert/division censuses with dominating-guard facts, symtable name "
+               "resolution, global-write census.",
+   floors={'M': 1000, 'D1': 150, 'N1': 20, 'N2': 20})
+
 
 TECHNIQUE = {
+    'C03': 'path walk of mutators for raise-after-effect; bound derivation of write loops; guard facts for helper asserts',
+    'C14': 'three-sorted dimension analysis (bits/units/items) of array_.py; atomicity path rule; dtype-writer guard',
+    'C20': 'member resolution, raise/assert/division censuses with dominating-guard facts, symtable names, global-write census',
     'C01': 'result-class provenance typing per concrete class; sibling guard agreement; field-read reachability',
     'C06': 'typestate of _pos: classification of all writes, rollback path walk, effect/override coverage, post-condition table',
     'C07': 'sibling guard agreement; forward-or-validate dataflow of start/end; taint of raw bytealigned to search sinks',
